@@ -183,7 +183,7 @@ def run(ctx):
         log("BUILD FAILED (harness place):\n" + out[-3000:])
         raise SystemExit(2)
     vlib.regen_consts("Place", "place")
-    proofs_ok, info = ctx.check_proofs(make_targets=["Place/Proofs.vo", "Properties/C17.vo"],
+    proofs_ok, info = ctx.check_proofs(make_targets=["Place/Proofs.vo", "Place/ProofsV2.vo", "Properties/C17.vo"],
                                        gate_paths=["Place", "Part/Model", "Common", "Properties/C17"])
     mok, mout, _ = vlib.model_build("Place")
     if not mok:
@@ -234,6 +234,8 @@ def run(ctx):
                 distinct.add(vlib.case_hash("\t".join(c)))
             o = impl.get(cid, "")
             key = "impl " + o.split(" ")[0]
+            if c[0] == "M" and o.startswith("ok "):
+                key = "impl M step " + ("balanced" if o.startswith("ok 1") else "moved-or-stuck")
             hist_all[key] = hist_all.get(key, 0) + 1
         ids = list(cases.keys())
         pick = ids[:1] + ids[len(ids) // 2: len(ids) // 2 + 2] + ids[-1:]
